@@ -42,6 +42,7 @@ type Program struct {
 	Contracts map[string]*Contract     // by "pkgpath::key"
 	Externs   map[string]*Contract     // by full name e.g. "(ariga.io/atlas/sql/migrate.RevisionReadWriter).WriteRevision" or "strings.TrimPrefix"
 	ByFunc    map[*ssa.Function]*Contract
+	RecFuncs  map[*ssa.Function]bool
 	Overlay   map[string][]byte
 	srcCache  map[string][]byte
 }
@@ -135,6 +136,7 @@ func Load(cfg LoadConfig) (*Program, error) {
 			merged.Imports = append(merged.Imports, cf.Imports...)
 			merged.Ghosts = append(merged.Ghosts, cf.Ghosts...)
 			merged.SpecLines = append(merged.SpecLines, cf.SpecLines...)
+			merged.Recs = append(merged.Recs, cf.Recs...)
 			merged.Contracts = append(merged.Contracts, cf.Contracts...)
 			merged.Lemmas = append(merged.Lemmas, cf.Lemmas...)
 		}
@@ -245,7 +247,7 @@ func GvcOld[T any](f func() T) T           { panic("gvc") }
 func GvcHavoc[T any]() T                   { panic("gvc") }
 func GvcAssume(b bool)                     { panic("gvc") }
 func GvcAssert(b bool, label string)       { panic("gvc") }
-func GvcFresh(p any) bool                  { panic("gvc") }
+func GvcFresh[T any](p T) bool             { panic("gvc") }
 func GvcTypeName(x any) string             { panic("gvc") }
 
 type GvcArr[K comparable, V any] struct{ _ [0]func(K) V }
@@ -414,6 +416,8 @@ func generateOverlay(pk *packages.Package, fset *token.FileSet, cf *ContractFile
 					}
 				}
 				fmt.Fprintf(&b, "func %s%s(%s) []any {\n\treturn []any{%s}\n}\n", cl.Gen, c.typeParams(), sigPre, strings.Join(items, ", "))
+			case "localwrites":
+				// no generated function
 			case "invariant", "decreases":
 				if fd == nil {
 					return nil, fmt.Errorf("%s:%d: loop clause on extern", cl.File, cl.Line)
@@ -541,16 +545,19 @@ func desugarStmts(s string, ot func(string) (string, error)) (string, error) {
 	return desugarGroups(s, ot)
 }
 
+var pseudoRe = regexp.MustCompile(`\bloopk\b`)
+
 func oldTyper(pk *packages.Package, fset *token.FileSet, pos token.Pos, qual types.Qualifier) func(string) (string, error) {
 	return func(arg string) (string, error) {
 		if pos == token.NoPos {
 			return "", fmt.Errorf("no scope position")
 		}
+		arg = pseudoRe.ReplaceAllString(arg, "0")
 		tv, err := types.Eval(fset, pk.Types, pos, arg)
 		if err != nil {
 			return "", err
 		}
-		return types.TypeString(tv.Type, qual), nil
+		return types.TypeString(types.Default(tv.Type), qual), nil
 	}
 }
 
@@ -612,10 +619,18 @@ func loopStmts(fd *ast.FuncDecl) []ast.Stmt {
 
 func (p *Program) resolveContracts() error {
 	p.ByFunc = map[*ssa.Function]*Contract{}
+	p.RecFuncs = map[*ssa.Function]bool{}
 	for path, cf := range p.Files {
 		sp := p.SSAPkgs[path]
 		if sp == nil {
 			return fmt.Errorf("no SSA package for %s", path)
+		}
+		for _, r := range cf.Recs {
+			f := sp.Func(r)
+			if f == nil {
+				return fmt.Errorf("rec %s: no such spec function in %s", r, path)
+			}
+			p.RecFuncs[f] = true
 		}
 		for _, c := range cf.Contracts {
 			if c.Extern {
